@@ -215,7 +215,7 @@ Definition rev_fp_step (p : params) (k : calc) (c : conn) (minw : Z) (exitc : op
       if Nat.eqb a m &&
          match acc m with
          | None => true
-         | Some j => match js_enter j with Some b => c_dep b <=? c_dep c - minw | None => false end
+         | Some j => match js_enter j with Some b => c_dep b - minw_eff p b <=? c_dep c - minw | None => false end
          end
       then
         let accrow := row_of a (k_accfp k) in
